@@ -142,6 +142,7 @@ type Exec struct {
 	curCallee  *ssa.Function
 	allAllocs  []string
 	lastDiscoverAlloc int
+	clauseHit  map[*Clause]bool
 	pointeesOnly bool
 	heapInvDone  map[string]bool
 }
